@@ -3,6 +3,7 @@ import Proofs.StatusModel
 import Proofs.SharedStorage
 import Proofs.SharedComplete
 import Proofs.StopFlag
+import Proofs.MultiSearch
 
 /-!
 # C14 — Timeouts cancel cooperatively and every job ends in a terminal status
@@ -593,5 +594,71 @@ example :
     expired (gatherO (submitCap (askStep s) 1).1 false 1 [1] []).1 = true := by decide +kernel
 /-- what the flag logic must not be: *assigning* the callback's value would lower a raised flag -/
 example : raiseFlag true false [some false] = true ∧ raiseFlag false true [some false] = true := by decide
+
+/-! ## Several searches recorded in one storage object (`Model/MultiSearch.lean`)
+
+`MemoryStorage` holds any number of searches; evaluators created with the same `storage=` and no `search_id` open a
+search each, and the job indices of those searches overlap (`"0.0"`, `"1.0"`, …).  `Store` = the searches of one storage
+object with the clock they share; the job `"s.i"` is keyed by the pair `(s, i)` (`Store.job st s i`); `srun st hist` =
+any history of operations `(search, evaluator, act)` of any evaluators of any searches, in the order in which they are
+made. -/
+
+/-- **C14 (the searches of one storage are isolated).**  Whatever the evaluators of the OTHER searches of the storage do
+(any operations, any environment, timeouts expiring, `close()`), search `s'` is left exactly as it was: the record of
+every job `"s'.i"` — status, history of status writes, output — and the private state of its evaluators.  A call on
+search `s` never writes a row of a search `s' ≠ s`: a DONE job of one search cannot become CANCELLED through the timeout
+of another, a running job cannot observe the status of another search's job. -/
+theorem C14_search_isolation (st : Store) (hist : List (Nat × Nat × Act)) (s' : Nat)
+    (h : ∀ x ∈ hist, x.1 ≠ s') :
+    (srun st hist).searches[s']? = st.searches[s']? ∧ ∀ i, (srun st hist).job s' i = st.job s' i :=
+  ⟨srun_other hist st s' h, fun i => job_of_searches_eq (srun_other hist st s' h) i⟩
+
+/-- **C14 (status only moves forward, jobs identified by their full id).**  Any number of searches in one storage, any
+number of evaluators on each, any history of any of their operations in any order: the status writes of every job
+`(s, i)` form an allowed forward sequence and its status in the storage is the last one written. -/
+theorem C14_multi_monotone (cfg : List (List Nat × Bool × List Spec)) (hist : List (Nat × Nat × Act))
+    (s i : Nat) (j : Job) (hj : (srun (sinit cfg) hist).job s i = some j) :
+    Allowed j.log ∧ j.log.getLast? = some j.status := by
+  obtain ⟨w, hw, hjw⟩ := mem_jobs_of_job hj
+  exact allowed_of_inv (storeInv_srun hist _ (storeInv_sinit cfg) w hw j hjw)
+
+/-- **C14 (a terminal status is final, across the searches of a storage).**  Once job `(s, i)` has been reported
+(gathered, or recorded by `close()`), it is DONE or CANCELLED and its record is never touched again by any later
+operation of any evaluator of ANY search of the storage (`more`). -/
+theorem C14_multi_terminal_final (cfg : List (List Nat × Bool × List Spec)) (hist more : List (Nat × Nat × Act))
+    (s i : Nat) (j : Job) (hj : (srun (sinit cfg) hist).job s i = some j)
+    (hp : j.pc = .gathered ∨ j.pc = .closedOut) :
+    (j.status = .done ∨ j.status = .cancelled) ∧ (srun (srun (sinit cfg) hist) more).job s i = some j := by
+  have hi := storeInv_srun hist _ (storeInv_sinit cfg)
+  obtain ⟨w, hw, hjw⟩ := mem_jobs_of_job hj
+  refine ⟨terminal_of_reported (hi w hw j hjw) hp, ?_⟩
+  refine srun_keeps more _ hi s i j hj ?_
+  rcases hp with h | h
+  · exact Or.inl h
+  · exact Or.inr (Or.inl h)
+
+/-! non-vacuity: two searches in one storage, one evaluator (1 worker) each.  Search 0 runs `search(max_evals=1)`: job
+`0.0` DONE at tick 1.  Search 1 then runs `search(timeout=2)`: its job `1.0` (5 sleeps) is running at the expiry, reads
+CANCELLING and is CANCELLED at tick 3.  Search 0 runs `search(max_evals=1)` once more at tick 3: job `0.1` DONE.  Job `0.0`
+is DONE all along (the pinned-tree regression of the seeded class: the status slot of `"0.0"` is not the one of `"1.0"`). -/
+def cfgM : List (List Nat × Bool × List Spec) :=
+  [([1], true, [⟨1, 1, false, 1⟩, ⟨1, 1, false, 2⟩]), ([1], true, [⟨5, 1, false, 7⟩])]
+def histM : List (Nat × Nat × Act) :=
+  [(0, 0, .searchO { maxEvals := 1 } [([0], [])] ([], [])),
+   (1, 0, .searchO { timeout := some 2 } [([0], [])] ([], [])),
+   (0, 0, .searchO { maxEvals := 1 } [([1], [])] ([], []))]
+
+open Status in
+example : (srun (sinit cfgM) histM).searches.map (fun w => w.jobs.map (fun j => (j.log, j.pc, j.start, j.ret))) =
+    [[([ready, running, done], .gathered, 0, 1), ([ready, running, done], .gathered, 3, 4)],
+     [([ready, running, cancelling, cancelled], .gathered, 1, 3)]] := by decide +kernel
+example : (srun (sinit cfgM) histM).now = 4 := by decide +kernel
+/-- after the first call job `0.0` is reported DONE (hypotheses of `C14_multi_terminal_final`), and the second call acts on
+another search (hypothesis of `C14_search_isolation`) -/
+example : ((srun (sinit cfgM) (histM.take 1)).job 0 0).map (fun j => (j.status, j.pc)) = some (.done, .gathered) := by
+  decide +kernel
+example : ∀ x ∈ (histM.drop 1).take 1, x.1 ≠ 0 := by decide
+example : ((srun (sinit cfgM) histM).job 0 0).map (·.status) = some .done ∧
+    ((srun (sinit cfgM) histM).job 1 0).map (·.status) = some .cancelled := by decide +kernel
 
 end DH.Timeout
